@@ -150,15 +150,19 @@ Definition wrappers : list string := ["ADFI_write"; "ADFI_read"].
    call site); justification or finding in notes/C14b.md.  A listed pair is excused, never required: repairing it in
    /repo does not break any obligation (the pair then appears in Gen_C14.stale_exceptions). *)
 Definition known_unchecked : list (string * string) :=
-  [ ("ADF_Delete", "ADFI_delete_data");
-    ("ADFI_write_data_chunk", "ADFI_write_disk_pointer_2_disk");
+  [ (* ("ADF_Delete", "ADFI_delete_data") and ("ADFI_write_data_chunk", "ADFI_write_disk_pointer_2_disk") were
+       repaired in /repo a52e496 / ed97a70 and are no longer excused: re-introducing either breaks the obligation *)
     ("ADFI_close_file", "ADFI_close_file");
     ("ADFI_read_chunk_length", "ADFI_read_file");
     ("rewrite_file", "cgio_close_file");
     ("cgio_cleanup", "cgio_close_file");
     ("cgio_find_file", "cgio_check_file");
     ("cgio_check_file", "ADFH_Database_Open");
-    ("cgio_error_exit", "cgio_cleanup")
+    ("cgio_error_exit", "cgio_cleanup");
+    ("cg_is_cgns", "cgio_close_file");
+    ("cg_precision", "cgio_get_data_type");
+    ("cgi_read_boco", "cgio_get_name");
+    ("cgi_read_boco", "cgio_get_node_id")
   ].
 Local Close Scope string_scope.
 
